@@ -1800,3 +1800,132 @@ func FileCrashShapes(thorough bool) []FileParams {
 	}
 	return out
 }
+
+// ---------------------------------------------------------------------------
+// Per-fork disabling: a call inside a mapped pipeline is disabled by (a
+// member of) the element the pipeline is mapped over, so that it runs in some
+// forks of the pipeline and not in others.
+
+type PfDisParams struct {
+	Member bool   // the flag is a member of a struct element (else an element of a bool array mapped next to the numbers)
+	Dyn    bool   // the collection of flags is a stage output (else a literal)
+	Cons   string // plain: a call consumes the output; map: a call maps over the array output; pass: the pipeline returns the output
+	Flags  []bool // one per fork of the mapped pipeline: true = disabled
+}
+
+func (d PfDisParams) String() string {
+	fl := ""
+	for _, f := range d.Flags {
+		if f {
+			fl += "1"
+		} else {
+			fl += "0"
+		}
+	}
+	return fmt.Sprintf("pfdis{member=%v dyn=%v cons=%s flags=%s}", d.Member, d.Dyn, d.Cons, fl)
+}
+
+func PfDis(d PfDisParams) *Program {
+	if !d.Dyn && d.Cons == "plain" && len(d.Flags) > 0 {
+		// All forks disabled by literals: the consumer's arguments are
+		// constants and whether it still runs once per fork is not stated.
+		all := true
+		for _, f := range d.Flags {
+			all = all && f
+		}
+		if all {
+			return nil
+		}
+	}
+	p := baseProgram()
+	p.Desc = d.String()
+	I, B := IntT, BoolT
+	item := StructT("ITEM")
+	p.Structs = append(p.Structs, &StructDecl{Name: "ITEM", Fields: []Param{{T: B, Name: "flag"}, {T: I, Name: "n"}}})
+	p.Stages = append(p.Stages,
+		&Stage{Name: "GENI", Fn: "ID", Ins: []Param{{T: ArrayOf(item), Name: "x"}}, Outs: []Param{{T: ArrayOf(item), Name: "y"}}},
+		&Stage{Name: "GENB", Fn: "ID", Ins: []Param{{T: ArrayOf(B), Name: "x"}}, Outs: []Param{{T: ArrayOf(B), Name: "y"}}})
+	inner := &Pipeline{Name: "INNER"}
+	var dis, n *Exp
+	if d.Member {
+		inner.Ins = []Param{{T: item, Name: "item"}}
+		dis, n = Self("item", "flag"), Self("item", "n")
+	} else {
+		inner.Ins = []Param{{T: B, Name: "flag"}, {T: I, Name: "n"}}
+		dis, n = Self("flag"), Self("n")
+	}
+	inner.Calls = append(inner.Calls, &Call{Callee: "GEN", Alias: "MAKE", Binds: []Bind{{"n", n}}, Disabled: dis})
+	var outT *T
+	switch d.Cons {
+	case "plain":
+		inner.Calls = append(inner.Calls, &Call{Callee: "ADD", Binds: []Bind{{"a", Ref("MAKE", "v")}, {"b", Lit(Int(1))}}})
+		outT = I
+		inner.Ret = []Bind{{"ys", Ref("ADD", "sum")}}
+	case "map":
+		inner.Calls = append(inner.Calls, &Call{Callee: "ADD", Map: true, Binds: []Bind{{"a", SplitE(Ref("MAKE", "arr"))}, {"b", Lit(Int(1))}}})
+		outT = ArrayOf(I)
+		inner.Ret = []Bind{{"ys", Ref("ADD", "sum")}}
+	case "pass":
+		outT = I
+		inner.Ret = []Bind{{"ys", Ref("MAKE", "v")}}
+	default:
+		return nil
+	}
+	inner.Outs = []Param{{T: outT, Name: "ys"}}
+	elems, bs, ns := &Val{K: VArr}, &Val{K: VArr}, &Val{K: VArr}
+	for i, f := range d.Flags {
+		elems.A = append(elems.A, Obj(map[string]*Val{"flag": Bool(f), "n": Int(int64(i + 1))}))
+		bs.A = append(bs.A, Bool(f))
+		ns.A = append(ns.A, Int(int64(i+1)))
+	}
+	top := &Pipeline{Name: "TOP", Outs: []Param{{T: ArrayOf(outT), Name: "ys"}}}
+	call := &Call{Callee: "INNER", Map: true}
+	if d.Member {
+		lit := TLit(p, elems, ArrayOf(item))
+		if d.Dyn {
+			top.Calls = append(top.Calls, &Call{Callee: "GENI", Binds: []Bind{{"x", lit}}})
+			call.Binds = []Bind{{"item", SplitE(Ref("GENI", "y"))}}
+		} else {
+			call.Binds = []Bind{{"item", SplitE(lit)}}
+		}
+	} else {
+		if d.Dyn {
+			top.Calls = append(top.Calls, &Call{Callee: "GENB", Binds: []Bind{{"x", Lit(bs)}}})
+			call.Binds = []Bind{{"flag", SplitE(Ref("GENB", "y"))}, {"n", SplitE(Lit(ns))}}
+		} else {
+			call.Binds = []Bind{{"flag", SplitE(Lit(bs))}, {"n", SplitE(Lit(ns))}}
+		}
+	}
+	top.Calls = append(top.Calls, call)
+	top.Ret = []Bind{{"ys", Ref("INNER", "ys")}}
+	p.Pipelines = append(p.Pipelines, inner, top)
+	p.Top = &Call{Callee: "TOP"}
+	FixUnused(p)
+	return p
+}
+
+// PfDisFamily: every combination of flag source, literal / run-time flags
+// and consumer with every valuation of the flags of 1-2 (thorough 3) forks.
+func PfDisFamily(thorough bool) []PfDisParams {
+	maxN := 2
+	if thorough {
+		maxN = 3
+	}
+	var out []PfDisParams
+	for _, member := range []bool{false, true} {
+		for _, dyn := range []bool{false, true} {
+			for _, cons := range []string{"plain", "map", "pass"} {
+				for n := 1; n <= maxN; n++ {
+					for bits := 0; bits < 1<<n; bits++ {
+						fl := make([]bool, n)
+						for i := range fl {
+							fl[i] = bits&(1<<i) != 0
+						}
+						out = append(out, PfDisParams{Member: member, Dyn: dyn, Cons: cons, Flags: fl})
+					}
+				}
+			}
+		}
+	}
+	return out
+}
